@@ -62,6 +62,21 @@ ReaderCall(op, n, consume) ==
        /\ last' = Out(op, n, r.consumed, IF ok THEN n ELSE 0, f.err, 0, 0)
        /\ UNCHANGED <<w, i>>
 
+\* a source that hands its data out in many small pieces: k reads of c bytes are planned and one Next needs (nearly) all of them
+\* (the adapter's fill gives up after 16 source reads and must be called again)
+BurstNext(k, c, short) ==
+    LET burst == [j \in 1 .. k |-> [n |-> c, e |-> "nil"]]
+        script2 == r.script \o burst
+        avail == r.produced - r.consumed
+        have == avail + k * c + (IF r.script = <<>> THEN 0 ELSE 0)
+        need == have - short
+        f == Fill(script2, avail, need)
+        ok == f.err = "nil"
+    IN /\ r.script = <<>> /\ need > 0
+       /\ r' = [r EXCEPT !.script = f.script, !.produced = @ + f.add, !.consumed = IF ok THEN @ + need ELSE @]
+       /\ last' = Out("BurstNext", need, r.consumed, IF ok THEN need ELSE 0, f.err, k, c)
+       /\ UNCHANGED <<w, i>>
+
 RLen == r.produced - r.consumed
 
 \* ---- W
@@ -114,7 +129,8 @@ SimNext ==
     \E d \in {Pick(1 .. 100)} :
       CASE d <= 22 -> (\E n \in {Pick(Chunks)}, e \in {Pick({"nil", "nil", "nil", "eof", "other"})} : SrcPlan(n, e))
         [] d <= 50 -> (\E op \in {Pick(ReaderOps)}, n \in {Pick(Needs \cup {RLen, RLen + 1})} : n > 0 /\ ReaderCall(op, n, op # "Peek"))
-        [] d <= 54 -> ReaderCall("ReadByte", 1, TRUE)
+        [] d <= 52 -> ReaderCall("ReadByte", 1, TRUE)
+        [] d <= 54 -> (\E k \in {Pick({17, 18, 20, 33, 40})}, c \in {Pick({1, 3, 100, 1000})}, sh \in {Pick({0, 1})} : BurstNext(k, c, sh))
         [] d <= 57 -> (last' = Out("Release", 0, 0, 0, "nil", 0, 0) /\ UNCHANGED <<r, w, i>>)
         [] d <= 70 -> (\E op \in {Pick({"Malloc", "WriteBinary", "WriteString", "WriteByte"})}, n \in {Pick(WSizes)} : WriterWrite(op, IF op = "WriteByte" THEN 1 ELSE n))
         [] d <= 73 -> (\E k \in {Pick(0 .. (w.submitted - w.flushed))} : WriterAck(k))
